@@ -275,3 +275,66 @@ def c_rows(ctx, case):
             if len(members):
                 ctx.close(v[i], members.var(axis=0), "%s variance of cluster %d (many rows)" % (what, i), rtol=1e-9,
                           atol=16 * n * EPS * sc2)
+
+
+def g_follow(draw):
+    c = g_points(draw)
+    r = gen.rng(draw)
+    k, F = c["cent"].shape
+    off = c["cent"].mean(axis=0)
+    c["cent2"] = off + c["spread"] * r.normal(0, 2, (k, F))
+    c["step"] = gen.choice(draw, ["inplace_assign", "inplace_add", "reassign", "means_setter", "fit"])
+    c["pre"] = gen.choice(draw, ["predict", "transform", "both", "stats"])
+    return c
+
+
+@REG.obligation("labels_follow_the_centroids", g_follow, quick=300, thorough=6000)
+def c_follow(ctx, case):
+    """A machine that has already answered (predict / transform / cluster statistics) and whose centroids then change -
+    edited in place, re-assigned, or re-trained - answers for the centroids it holds NOW: distances, labels (NumPy,
+    Dask, single sample) and cluster statistics equal the definition evaluated on the current centroids."""
+    from bob.learn.em import KMeansMachine
+
+    X, cent, cent2 = case["X"], case["cent"], np.array(case["cent2"], dtype=float)
+    k, n = cent.shape[0], X.shape[0]
+    m = machine(cent)
+    dX = sut.dask_rows(X, case["chunks"])
+    if case["pre"] in ("predict", "both"):
+        m.predict(X), m.predict(X[0]), m.predict(dX).compute()
+    if case["pre"] in ("transform", "both"):
+        m.transform(X), m.transform(dX).compute()
+    if case["pre"] == "stats":
+        m.get_variances_and_weights_for_each_cluster(X)
+    step = case["step"]
+    if step == "inplace_assign":
+        m.centroids_[...] = cent2
+    elif step == "inplace_add":
+        m.centroids_ += cent2 - cent
+        cent2 = np.array(m.centroids_, dtype=float)
+    elif step == "reassign":
+        m.centroids_ = np.array(cent2)
+    elif step == "means_setter":
+        m.means = np.array(cent2)
+    else:
+        m.init_method, m.max_iter, m.convergence_threshold = np.array(cent2), 0, None
+        m.fit(X)
+    cur = np.asarray(m.centroids_, float)
+    ctx.close(cur, cent2, "centroids after %s" % step, rtol=1e-15, atol=0)
+    want = ref.sq_dists(X, cur)
+    dmin = want.min(axis=0)
+    moved = bool((want.argmin(axis=0) != ref.sq_dists(X, cent).argmin(axis=0)).any())
+    ctx.note(k >= 2 and moved, "step:" + step, "pre:" + case["pre"])
+    ctx.close(np.asarray(m.transform(X), float), want, "squared distances after %s" % step, rtol=1e-12, atol=0)
+    ctx.close(np.asarray(m.transform(dX).compute(), float), want, "dask squared distances after %s" % step, rtol=1e-12, atol=0)
+    for what, lab in (("predict", np.asarray(m.predict(X))), ("dask predict", np.asarray(m.predict(dX).compute()))):
+        chosen = want[lab, np.arange(n)]
+        bad = np.nonzero(chosen > dmin * (1 + 1e-12))[0]
+        ctx.check(len(bad) == 0, "%s after %s: %d of %d rows are not labelled with a nearest CURRENT centroid"
+                  % (what, step, len(bad), n), "not-nearest")
+    for t in range(min(n, 3)):
+        l1 = int(np.asarray(m.predict(X[t]))[0])
+        ctx.check(want[l1, t] <= dmin[t] * (1 + 1e-12), "single-sample predict after %s not nearest" % step, "not-nearest")
+    lab, w, v, margin = member_stats(X, cur)
+    if margin >= 1e-9:
+        gv, gw = m.get_variances_and_weights_for_each_cluster(X)
+        ctx.close(np.asarray(gw, float), w, "cluster weights after %s" % step, rtol=1e-12, atol=1e-15)
